@@ -348,6 +348,7 @@ def _execute_concurrent(sc, tape, keep_events):
     res.digest = log.digest()
     res.tape = sched.tape_out
     res.steps = sched.steps
+    res.stats["schedule"] = hashlib.sha256(repr(sched.tape_out).encode()).hexdigest()[:16]
     res.stats["signatures"] = len(records)
     res.stats["events"] = log.events if keep_events else None
     res.features = {"stratum": "concurrent"}
@@ -481,6 +482,8 @@ def execute(scenario, tape=None, keep_events=False):
             if _openssl is not None and strict:
                 if not _openssl(pub_c, der, z_in.to_bytes(32, "big")):
                     viols.append(Violation("invalid-signature-openssl", where + f" digest={feats['digest_class']}", f"OpenSSL rejects der={der.hex()}", feats))
+                else:
+                    probes.hit("openssl-accepts")
             # -- the library's own verifiers
             try:
                 if mode == "raw":
@@ -564,14 +567,18 @@ def execute(scenario, tape=None, keep_events=False):
 
 def merge_stats(agg, st, final=False):
     agg["signatures"] = agg.get("signatures", 0) + st.get("signatures", 0)
+    agg.setdefault("schedules", set())
+    if "schedule" in st:
+        agg["schedules"].add(st["schedule"])
+    agg["schedules"] |= st.get("schedules", set())
 
 
 def finalise_stats(st):
     return {
         "signatures_checked": st.get("signatures", 0),
-        "distinct_interleavings": None,
-        "distinct_interleavings_measure": "not applicable (no scheduler in this engine); reach is reported through branch probes",
-        "openssl_second_verifier": _openssl is not None,
+        "openssl_second_verifier": "see probes['openssl-accepts'] (count of signatures OpenSSL verified)",
+        "distinct_interleavings": len(st.get("schedules", ())) or None,
+        "distinct_interleavings_measure": "distinct schedule tapes in the concurrent-callers stratum (no scheduler in the other strata)",
     }
 
 
